@@ -95,6 +95,7 @@ def main():
             print(c, "exit", rc, sig[:4])
     finally:
         sh(["git", "-C", REPO, "checkout", "--", "."])
+        sh(["git", "-C", REPO, "clean", "-fdq", "cvss"])       # files a patch created
         sh([PY, os.path.join(VERIF, "tools", "gen_tables.py")])
     meta["checks"] = results
     meta["detected_by"] = [c for c, r in results.items() if r["exit"] == 1]
